@@ -333,6 +333,12 @@ func c10body(first []string, maxLen int, prelude bool) func() {
 // c10conc: concurrent senders racing an acknowledgement. At quiescence every accepted
 // stanza that the acknowledgement did not cover must be held exactly once.
 func c10conc(progs [][]string, ackH int) func() {
+	return c10concN(progs, 0, []int{ackH})
+}
+
+// c10concN: after `prelude` stanzas sent and settled, concurrent senders race the acknowledgements `acks`,
+// which the server writes in one segment (the client routes each in its own goroutine).
+func c10concN(progs [][]string, prelude int, acks []int) func() {
 	return func() {
 		vrt.Quiet(true)
 		s := newSess(sessOpts{sm: true, smResume: true, keepalive: 3600})
@@ -345,6 +351,10 @@ func c10conc(progs [][]string, ackH int) func() {
 		}
 		vrt.WaitIdle()
 		sc := s.conn(0)
+		for i := 0; i < prelude; i++ {
+			_ = s.cl.Send(stanza.Message{Attrs: stanza.Attrs{To: "peer@example.org", Id: fmt.Sprintf("pre%d", i), Type: "chat"}, Body: "p"})
+		}
+		vrt.WaitIdle()
 		sc.pending = nil
 		sc.drainNew()
 		vrt.Quiet(false)
@@ -372,11 +382,18 @@ func c10conc(progs [][]string, ackH int) func() {
 				}
 			})
 		}
-		sc.send(fmt.Sprintf("<a xmlns='urn:xmpp:sm:3' h='%d'/>", ackH))
+		var ab strings.Builder
+		for _, h := range acks {
+			fmt.Fprintf(&ab, "<a xmlns='urn:xmpp:sm:3' h='%d'/>", h)
+		}
+		sc.send(ab.String())
 		vrt.WaitIdle()
 		vrt.Quiet(true)
 		q := c10queue(s.cl)
-		desc := fmt.Sprintf("senders %v racing <a h=%d/>", progs, ackH)
+		desc := fmt.Sprintf("senders %v racing <a h=%v/>", progs, acks)
+		if prelude > 0 {
+			desc = fmt.Sprintf("after the initial presence and %d stanzas, %s (one segment)", prelude, desc)
+		}
 		count := map[string]int{}
 		for _, e := range q {
 			count[e]++
@@ -404,6 +421,44 @@ func c10conc(progs [][]string, ackH int) func() {
 			}
 		}
 		vrt.Log("queue %d entries", len(q))
+		// follow-up, for the plain case (one acknowledgement that covers nothing of what the senders sent): the
+		// server now acknowledges the first of the concurrently sent stanzas, as it saw them on the wire. That
+		// one, and only that one, is delivered; the numbers the client gave must agree with the wire order.
+		if prelude == 0 && len(acks) == 1 && acks[0] <= 1 && len(accepted) >= 2 {
+			var wire []string
+			for _, u := range sc.drainNew() {
+				if u.kind == "element" && c10stanzaName(u.name) {
+					for _, a := range accepted {
+						if u.raw == a {
+							wire = append(wire, a)
+						}
+					}
+				}
+			}
+			if acks[0] == 0 {
+				// <a h=0/> made the client send the initial presence again: it is on the wire twice, the stanzas
+				// of the senders come after both copies or in between - the count is not simply 2
+				return
+			}
+			if len(wire) != len(accepted) {
+				return // a retransmission mixed in (or a write missing): wire positions are not those of first transmissions only
+			}
+			sc.send("<a xmlns='urn:xmpp:sm:3' h='2'/>")
+			vrt.WaitIdle()
+			q2 := c10queue(s.cl)
+			cnt := map[string]int{}
+			for _, e := range q2 {
+				cnt[e]++
+			}
+			if cnt[wire[0]] != 0 {
+				vrt.Fail("C10|acked-stanza-still-held|concurrent", "%s, then <a h=2/>: %s was the first stanza on the wire after the initial presence and is acknowledged, but still held (queue %q, wire order %q)", desc, wire[0], q2, wire)
+			}
+			for _, w := range wire[1:] {
+				if cnt[w] == 0 {
+					vrt.Fail("C10|unacked-stanza-discarded|concurrent", "%s, then <a h=2/>: %s came after the acknowledged stanza on the wire but is not held any more (queue %q, wire order %q)", desc, w, q2, wire)
+				}
+			}
+		}
 	}
 }
 
@@ -467,6 +522,71 @@ func c10fault(nSent, ackH, failAt int, short bool) func() {
 			vrt.Fail("C10|held-order-or-duplicates", "history [%s]: queue %q, must hold in order %q", hist, q, must)
 		case "nonza":
 			vrt.Fail("C10|nonza-held", "history [%s]: the held queue contains a stream-management element (queue %q)", hist, q)
+		}
+	}
+}
+
+// c10reactive: a server that acknowledges everything (h = its count) the moment it has read the last stanza of
+// the senders' programs. The acknowledgement races with whatever the sending goroutine still has to do after that
+// last write: when everything has settled, every stanza was acknowledged and nothing may be held any more, and
+// nothing was sent twice. (A server acknowledging EVERY stanza at once is no use as a driver: with "send again
+// whatever an acknowledgement does not cover", which the property prescribes, one stanza in flight when an
+// acknowledgement arrives starts an exchange of copies and acknowledgements that never ends.)
+func c10reactive(progs [][]string) func() {
+	return func() {
+		vrt.Quiet(true)
+		var wire []string
+		total := 0
+		for _, prog := range progs {
+			total += len(prog)
+		}
+		s := newSess(sessOpts{sm: true, smResume: true, keepalive: 3600, served: func(sc *srvConn, r *negRec) {
+			count := 0 // the initial presence is the first stanza read here
+			for {
+				u := sc.read()
+				if u.kind == "eof" || u.kind == "close" || vrt.Killed() {
+					return
+				}
+				if u.kind == "element" && c10stanzaName(u.name) {
+					count++
+					wire = append(wire, u.raw)
+					if count == total+1 {
+						sc.send(fmt.Sprintf("<a xmlns='urn:xmpp:sm:3' h='%d'/>", count))
+					}
+				}
+			}
+		}})
+		if s.cl == nil {
+			return
+		}
+		if err := s.cl.Connect(); err != nil {
+			vrt.Fail("C10|harness|connect", "%v", err)
+			return
+		}
+		vrt.WaitIdle()
+		vrt.Quiet(false)
+		for ti, prog := range progs {
+			ti, prog := ti, prog
+			vrt.Go(fmt.Sprintf("sender%d", ti), func() {
+				for oi, op := range prog {
+					id := fmt.Sprintf("t%do%d", ti, oi)
+					if op == "raw" {
+						_ = s.cl.SendRaw(fmt.Sprintf("<presence id='%s'><status>x</status></presence>", id))
+					} else {
+						_ = s.cl.Send(stanza.Message{Attrs: stanza.Attrs{To: "peer@example.org", Id: id, Type: "chat"}, Body: "b"})
+					}
+				}
+			})
+		}
+		vrt.WaitIdle()
+		vrt.Quiet(true)
+		q := c10queue(s.cl)
+		desc := fmt.Sprintf("senders %v, the server acknowledging every stanza as soon as it has read it", progs)
+		if len(q) != 0 {
+			vrt.Fail("C10|acked-stanza-still-held|reactive-server", "%s: every stanza was acknowledged, yet the queue holds %q (wire %q)", desc, q, wire)
+		}
+		if len(wire) != total+1 {
+			vrt.Fail("C10|acked-stanza-retransmitted|reactive-server", "%s: the initial presence and %d stanzas sent, the server read %d: %q", desc, total, len(wire), wire)
 		}
 	}
 }
@@ -591,6 +711,14 @@ func TestVerifC10(t *testing.T) {
 			scs = append(scs, hx.Scenario{Name: fmt.Sprintf("conc/%v/h=%d", progs, h), Opt: vrt.Options{Bound: cb, Horizon: 50000, TouchOn: []string{"Uslice"}},
 				Body: c10conc(progs, h), Verdict: c10verdict})
 		}
+	}
+	for _, progs := range [][][]string{{{"msg"}}, {{"raw", "msg"}}, {{"msg"}, {"raw"}}} {
+		scs = append(scs, hx.Scenario{Name: fmt.Sprintf("reactive-ack/%v", progs), Opt: vrt.Options{Bound: cb, Horizon: 50000},
+			Body: c10reactive(progs), Verdict: c10verdict})
+	}
+	for _, acks := range [][]int{{2, 4}, {1, 4}, {4, 2}, {2, 2}} {
+		scs = append(scs, hx.Scenario{Name: fmt.Sprintf("conc-acks/%v", acks), Opt: vrt.Options{Bound: cb, Horizon: 50000, TouchOn: []string{"Uslice"}},
+			Body: c10concN([][]string{{"raw"}}, 3, acks), Verdict: c10verdict})
 	}
 	for _, n1 := range []int{1, 2} {
 		for _, n2 := range []int{1, 2, 3} {
